@@ -79,6 +79,7 @@ pub fn app_reply(kind: u64) -> AppReply {
         1 => AppReply { code: 0x45, options: vec![], payload: body(10_000, 1) },
         2 => AppReply { code: 0x45, options: (0..6).map(|_| (8u16, vec![b'l'; 233])).collect(), payload: body(100, 2) },
         3 => AppReply { code: 0x45, options: vec![(23, rb::enc(3, true, 2))], payload: body(64, 3) },
+        5 => AppReply { code: 0x45, options: vec![], payload: body(100, 5) },
         _ => AppReply { code: 0x45, options: vec![], payload: body(300, 4) },
     }
 }
@@ -100,6 +101,11 @@ fn b2_values() -> Vec<Blk> {
         for szx in [0u8, 7] {
             v.push(Blk::Val(num, false, szx));
         }
+    }
+    // block numbers just below / at / just beyond the end of the application bodies (100 and 300 bytes at
+    // 16-byte blocks: 7 and 19 blocks; 100 bytes at 64: 2 blocks; 10000 bytes at 1024: 10 blocks)
+    for (num, szx) in [(6u32, 0u8), (7, 0), (8, 0), (18, 0), (19, 0), (20, 0), (2, 2), (3, 2), (9, 6), (10, 6), (11, 6)] {
+        v.push(Blk::Val(num, false, szx));
     }
     v
 }
@@ -215,12 +221,12 @@ fn depth1(ctx: &Ctx, rep: &mut Report) {
         }
     }
     let budgets = budgets_full();
-    let radices = [shapes.len() as u64, b1s.len() as u64, b2s.len() as u64, budgets.len() as u64, 4];
+    let radices = [shapes.len() as u64, b1s.len() as u64, b2s.len() as u64, budgets.len() as u64, 6];
     let n = product(&radices);
     ctx.family(
         rep,
         "depth1-full-product",
-        "single hostile request: type {CON,NON,ACK,RST} x method {GET,PUT} x option bloat {0,40,1400} x Block1 {none, junk, num {0,1,2,100,4095} x more x SZX {0,6,7}} x Block2 {none, junk, num {0,1,100} x SZX {0,7}} x payload {0,16,1200} (7680 templates) x every budget 0..=64, {100,500,1152,1280,2000,5000}, 65..5000 step 97 x application reply {empty, 10000-byte body, 100 bytes + 1400 bytes of options, own Block2}",
+        "single hostile request: type {CON,NON,ACK,RST} x method {GET,PUT} x option bloat {0,40,1400} x Block1 {none, junk, num {0,1,2,100,4095} x more x SZX {0,6,7}} x Block2 {none, junk, num {0,1,100} x SZX {0,7}, 11 values at the end of the application bodies} x payload {0,16,1200} (7680 templates) x every budget 0..=64, {100,500,1152,1280,2000,5000}, 65..5000 step 97 x application reply {empty, 10000-byte body, 100 bytes + 1400 bytes of options, own Block2, 300-byte body, 100-byte body}",
         n,
         true,
         |i, rep| {
@@ -333,6 +339,8 @@ fn bfs_templates() -> Vec<Template> {
         t(Blk::Val(15, true, 6), Blk::None, 1024, 3),
         t(Blk::None, Blk::Val(0, false, 0), 0, 3),
         t(Blk::None, Blk::Val(1, false, 0), 0, 3),
+        t(Blk::None, Blk::Val(18, false, 0), 0, 3),
+        t(Blk::None, Blk::Val(19, false, 0), 0, 3),
         t(Blk::None, Blk::None, 0, 3),
         t(Blk::None, Blk::None, 1200, 3),
         // another resource (method differs): its buffer must never change when "k"/PUT is addressed
